@@ -145,7 +145,9 @@ class TokenStream:
         else:
             self._revert_reading_of_newline()
             s_source = self._source[self._start_pos:self._source_io.tell()].strip()
-            t = TokenType.QUOTED if s_source[0] in self._lexer.quotes else TokenType.PLAIN
+            t = (TokenType.QUOTED
+                 if any(q in s_source for q in self._lexer.quotes)
+                 else TokenType.PLAIN)
             self._head_token = Token(t, s, s_source)
         return ret_val
 
